@@ -1,5 +1,17 @@
 //@unit props=C08,C13 tier=quick rlimit=30
 //@file src/algo/floyd_warshall.rs
+// C08 for FloydWarshall::{new, distances} (src/algo/floyd_warshall.rs), C13 for every index `x * order + y` they touch.
+//
+// The algorithm is verified against the trait contracts of an opaque arc-weighted digraph (prelude/dgw_isize.rs).
+// `distances` requires the state built by `new` (`inv` + `is_fresh`), the arithmetic side condition `sums_fit`
+// (every duplicate-free walk weighs within +-isize::MAX/2) and C08's hypothesis `no_neg_circuit`.
+// Proof: phase (a)+(b) establish `init_ok`; the triple loop maintains `fw_inv(dg, d, m, jj, kk)` (speclib/fw_lemmas.rs):
+// every cell holds the minimum weight of a walk whose interior vertices are below its stage (m + 1 for the cells
+// before (jj, kk), m for the others).  At m == order that is C08's statement.
+//
+// Rule M: Verus has no `continue` in for-loops.  `if c { continue; } rest` is rewritten to `if !c { rest }` by five
+// @manual text replacements (the skipped text is put in a block comment, two closing braces are added after the
+// innermost statement, which is followed by closing braces only).
 #![feature(allocator_api)]
 use vstd::prelude::*;
 use vstd::std_specs::iter::IteratorSpec;
@@ -11,12 +23,127 @@ global size_of usize == 8;
 //@include speclib/graph.rs
 //@import units/inc/distance_matrix.inc.rs
 //@include prelude/fw_std.rs
+//@include speclib/fw_lemmas.rs
+
+// ---- phase (a): the arc weights ----
+/// the arcs_weighted contract over the whole item sequence
+spec fn arcs_ok<'b>(dg: &Dgi, s: Seq<(usize, usize, &'b isize)>) -> bool {
+    forall|i: int| 0 <= i < s.len() ==> dg.has((#[trigger] s[i]).0 as int, s[i].1 as int) && *s[i].2 == dg.wt(s[i].0 as int, s[i].1 as int)
+}
+/// the arc (u, v) is among the items still to come
+spec fn pending<'b>(s: Seq<(usize, usize, &'b isize)>, idx: int, u: int, v: int) -> bool {
+    exists|i: int| idx <= i < s.len() && (#[trigger] s[i]).0 == u && s[i].1 == v
+}
+/// during phase (a): every cell holds MAX or the weight of its arc
+spec fn cells_a(dg: &Dgi, d: Seq<isize>) -> bool {
+    &&& d.len() == dg.ord() * dg.ord()
+    &&& forall|u: int, v: int| 0 <= u < dg.ord() && 0 <= v < dg.ord() ==>
+            (#[trigger] ent(d, dg.ord() as int, u, v) == isize::MAX || (dg.has(u, v) && ent(d, dg.ord() as int, u, v) == dg.wt(u, v)))
+}
+/// after the first idx arcs: the cell of every arc holds its weight unless the arc is still to come
+spec fn arcs_a<'b>(dg: &Dgi, d: Seq<isize>, s: Seq<(usize, usize, &'b isize)>, idx: int) -> bool {
+    forall|u: int, v: int| #[trigger] dg.has(u, v) ==> ent(d, dg.ord() as int, u, v) == dg.wt(u, v) || pending(s, idx, u, v)
+}
+proof fn lemma_fresh_cells(dg: &Dgi, d: Seq<isize>)
+    requires dg.wf(), d.len() == dg.ord() * dg.ord(), forall|i: int| 0 <= i < d.len() ==> d[i] == isize::MAX,
+    ensures cells_a(dg, d),
+{
+    let n = dg.ord() as int;
+    assert forall|u: int, v: int| 0 <= u < n && 0 <= v < n implies #[trigger] ent(d, n, u, v) == isize::MAX by {
+        lemma_cell_bound(u, v, n);
+    }
+}
+proof fn lemma_phase_a_step<'b>(dg: &Dgi, d: Seq<isize>, s: Seq<(usize, usize, &'b isize)>, idx: int)
+    requires dg.wf(), arcs_ok(dg, s), cells_a(dg, d), arcs_a(dg, d, s, idx), 0 <= idx < s.len(),
+    ensures
+        0 <= s[idx].0 * dg.ord() + s[idx].1 < d.len(),
+        s[idx].0 * dg.ord() <= s[idx].0 * dg.ord() + s[idx].1,
+        cells_a(dg, d.update(s[idx].0 * dg.ord() + s[idx].1, *s[idx].2)),
+        arcs_a(dg, d.update(s[idx].0 * dg.ord() + s[idx].1, *s[idx].2), s, idx + 1),
+{
+    let n = dg.ord() as int;
+    let u = s[idx].0 as int; let v = s[idx].1 as int;
+    assert(dg.has(u, v));
+    lemma_cell_bound(u, v, n);
+    let d2 = d.update(u * n + v, *s[idx].2);
+    assert forall|u2: int, v2: int| 0 <= u2 < n && 0 <= v2 < n implies
+        (#[trigger] ent(d2, n, u2, v2) == isize::MAX || (dg.has(u2, v2) && ent(d2, n, u2, v2) == dg.wt(u2, v2))) by {
+        lemma_cell_bound(u2, v2, n);
+        if u2 * n + v2 == u * n + v { lemma_cell_inj(u2, v2, u, v, n); }
+        else { assert(ent(d2, n, u2, v2) == ent(d, n, u2, v2)); }
+    }
+    assert forall|u2: int, v2: int| #[trigger] dg.has(u2, v2) implies ent(d2, n, u2, v2) == dg.wt(u2, v2) || pending(s, idx + 1, u2, v2) by {
+        lemma_cell_bound(u2, v2, n);
+        if u2 * n + v2 == u * n + v {
+            lemma_cell_inj(u2, v2, u, v, n);
+        } else {
+            assert(ent(d2, n, u2, v2) == ent(d, n, u2, v2));
+            if pending(s, idx, u2, v2) {
+                let i = choose|i: int| idx <= i < s.len() && (#[trigger] s[i]).0 == u2 && s[i].1 == v2;
+                assert(i != idx);
+            }
+        }
+    }
+}
+/// all arcs written
+spec fn after_a(dg: &Dgi, d: Seq<isize>) -> bool {
+    forall|u: int, v: int| #[trigger] dg.has(u, v) ==> ent(d, dg.ord() as int, u, v) == dg.wt(u, v)
+}
+proof fn lemma_phase_a_done(dg: &Dgi, d: Seq<isize>)
+    requires dg.wf(), cells_a(dg, d), after_a(dg, d),
+    ensures phase_b(dg, d, 0),
+{
+    let n = dg.ord() as int;
+    assert forall|u: int, v: int| 0 <= u < n && 0 <= v < n implies
+        #[trigger] ent(d, n, u, v) == (if dg.has(u, v) { dg.wt(u, v) } else { isize::MAX as int }) by {
+    }
+}
+/// phase (b): after the arcs, the diagonal cells below i have been set to 0
+spec fn phase_b(dg: &Dgi, d: Seq<isize>, i: int) -> bool {
+    &&& d.len() == dg.ord() * dg.ord()
+    &&& forall|u: int, v: int| 0 <= u < dg.ord() && 0 <= v < dg.ord() ==>
+            #[trigger] ent(d, dg.ord() as int, u, v) == (if u == v && u < i { 0 } else if dg.has(u, v) { dg.wt(u, v) } else { isize::MAX as int })
+}
+proof fn lemma_phase_b_step(dg: &Dgi, d: Seq<isize>, i: int)
+    requires dg.wf(), phase_b(dg, d, i), 0 <= i < dg.ord(),
+    ensures
+        0 <= i * dg.ord() + i < d.len(), i * dg.ord() <= i * dg.ord() + i,
+        phase_b(dg, d.update(i * dg.ord() + i, 0), i + 1),
+{
+    let n = dg.ord() as int;
+    lemma_cell_bound(i, i, n);
+    let d2 = d.update(i * n + i, 0isize);
+    assert forall|u: int, v: int| 0 <= u < n && 0 <= v < n implies
+        #[trigger] ent(d2, n, u, v) == (if u == v && u < i + 1 { 0 } else if dg.has(u, v) { dg.wt(u, v) } else { isize::MAX as int }) by {
+        lemma_cell_bound(u, v, n);
+        if u * n + v == i * n + i { lemma_cell_inj(u, v, i, i, n); }
+        else { assert(ent(d2, n, u, v) == ent(d, n, u, v)); }
+    }
+}
+proof fn lemma_phase_b_done(dg: &Dgi, d: Seq<isize>)
+    requires dg.wf(), phase_b(dg, d, dg.ord() as int),
+    ensures init_ok(dg, d),
+{
+    let n = dg.ord() as int;
+    assert forall|u: int, v: int| 0 <= u < n && 0 <= v < n implies #[trigger] ent(d, n, u, v) == init_val(dg, u, v) by {
+        if u == v { assert(!dg.has(u, v)); }
+    }
+}
+/// the Vertices::vertices contract over the whole item sequence
+spec fn verts_ok(dg: &Dgi, s: Seq<usize>) -> bool {
+    s.len() == dg.ord() && forall|t: int| 0 <= t < s.len() ==> #[trigger] s[t] == t
+}
 
 /*@struct name=FloydWarshall subst=D=>Dgi drop=D @*/
 
 impl<'a> FloydWarshall<'a> {
+    /// struct invariant established by `new`: the matrix is order x order
     spec fn inv(&self) -> bool {
         self.digraph.wf() && self.dist.wf() && self.dist.order == self.digraph.ord()
+    }
+    /// state as built by `new`: every entry is MAX
+    spec fn is_fresh(&self) -> bool {
+        self.dist.infinity == isize::MAX && forall|i: int| 0 <= i < self.dist.dist@.len() ==> self.dist.dist@[i] == isize::MAX
     }
 
     /*@fn impl=FloydWarshall name=new subst=D=>Dgi drop=D dropwhere=D
@@ -25,14 +152,169 @@ impl<'a> FloydWarshall<'a> {
     ensures
         r.digraph == digraph,
         r.inv(),
+        r.is_fresh(),
     @*/
 
     /*@fn impl=FloydWarshall name=distances subst=D=>Dgi dropwhere=D
     requires
         old(self).inv(),
+        old(self).is_fresh(),
+        sums_fit(old(self).digraph),
+        no_neg_circuit(old(self).digraph),
     ensures
-        true,
+        final(self).digraph == old(self).digraph,
+        final(self).inv(),
+        *r == final(self).dist,
+        r.wf(),
+        r.order == old(self).digraph.ord(),
+        r.infinity == isize::MAX,
+        forall|u: int, v: int| 0 <= u < r.order && 0 <= v < r.order ==>
+            (#[trigger] r.at(u, v) == isize::MAX <==> !reachable(has_of(old(self).digraph), set![u], v)),
+        forall|u: int, v: int| 0 <= u < r.order && 0 <= v < r.order && #[trigger] r.at(u, v) != isize::MAX ==>
+            is_min_walk_weight(has_of(old(self).digraph), wt_of(old(self).digraph), set![u], v, r.at(u, v) as int),
+        forall|u: int| 0 <= u < r.order ==> #[trigger] r.at(u, u) == 0,
+    @manual `a == isize::MAX {` => `a != isize::MAX { /*` :: Verus: no `continue` in for-loops; `if a == MAX { continue; } rest` becomes `if a != MAX { rest }`
+    @manual `for k` => `*/ for k` :: end of the commented-out `continue; }` of the guard on a
+    @manual `b == isize::MAX {` => `b != isize::MAX { /*` :: Verus: no `continue` in for-loops; `if b == MAX { continue; } rest` becomes `if b != MAX { rest }`
+    @manual `let s` => `*/ let s` :: end of the commented-out `continue; }` of the guard on b
+    @manual `= s;` => `= s; } }` :: closing braces of the two guards (only closing braces follow this statement)
+    @fn_start
+        let ghost dg = self.digraph;
+        let ghost n = dg.ord() as int;
+    @loop 1
+    invariant
+        it1.iter.obeys_prophetic_iter_laws(),
+        it1.iter.decrease() is Some,
+        self.digraph == dg, dg.wf(), n == dg.ord(), order == n,
+        self.dist.order == n, self.dist.infinity == isize::MAX, self.dist.wf(),
+        arcs_ok(dg, it1.seq()),
+        cells_a(dg, self.dist.dist@),
+        forall|u: int, v: int| #[trigger] dg.has(u, v) ==> ent(self.dist.dist@, n, u, v) == dg.wt(u, v) || pending(it1.seq(), it1.index@, u, v),
+    @loop_start 1
+        proof {
+            assert((u, v, w__r) == it1.seq()[it1.index@]);
+            lemma_phase_a_step(dg, self.dist.dist@, it1.seq(), it1.index@);
+        }
+    @before `for (u, v`
+        proof { lemma_fresh_cells(dg, self.dist.dist@); }
+    @before `for i in 0`
+        proof {
+            assert(after_a(dg, self.dist.dist@));
+            lemma_phase_a_done(dg, self.dist.dist@);
+        }
+    @loop 2
+    invariant
+        self.digraph == dg, dg.wf(), n == dg.ord(), order == n,
+        self.dist.order == n, self.dist.infinity == isize::MAX, self.dist.wf(),
+        phase_b(dg, self.dist.dist@, i as int),
+    @loop_start 2
+        proof { lemma_phase_b_step(dg, self.dist.dist@, i as int); }
+    @before `for i in self`
+        proof {
+            lemma_phase_b_done(dg, self.dist.dist@);
+            lemma_fw_init(dg, self.dist.dist@);
+        }
+    @loop 3
+    invariant
+        it3.iter.obeys_prophetic_iter_laws(),
+        it3.iter.decrease() is Some,
+        verts_ok(dg, it3.seq()),
+        self.digraph == dg, dg.wf(), n == dg.ord(), order == n,
+        sums_fit(dg), no_neg_circuit(dg),
+        self.dist.order == n, self.dist.infinity == isize::MAX, self.dist.wf(),
+        fw_inv(dg, self.dist.dist@, it3.index@, 0, 0),
+    @loop_start 3
+        let ghost m = it3.index@;
+        proof { assert(i == it3.seq()[m]); }
+    @loop_end 3
+        proof { lemma_stage_end(dg, self.dist.dist@, m); }
+    @loop 4
+    invariant
+        it4.iter.obeys_prophetic_iter_laws(),
+        it4.iter.decrease() is Some,
+        verts_ok(dg, it4.seq()),
+        self.digraph == dg, dg.wf(), n == dg.ord(), order == n,
+        sums_fit(dg), no_neg_circuit(dg),
+        self.dist.order == n, self.dist.infinity == isize::MAX, self.dist.wf(),
+        0 <= m < n, i == m,
+        fw_inv(dg, self.dist.dist@, m, it4.index@, 0),
+    @loop_start 4
+        let ghost jj = it4.index@;
+        proof {
+            assert(j == it4.seq()[jj]);
+            lemma_cell_bound(jj, m, n);
+        }
+    @before `if a ==`
+        proof {
+            lemma_read(dg, self.dist.dist@, m, jj, 0, jj, m);
+            if a == isize::MAX {
+                lemma_skip_row(dg, self.dist.dist@, m, jj);
+            } else {
+                lemma_lift_col_all(dg, jj, m, a as int);
+                if jj != m { lemma_bound_col(dg, jj, m, a as int); }
+            }
+        }
+    @loop 5
+    invariant
+        it5.iter.obeys_prophetic_iter_laws(),
+        it5.iter.decrease() is Some,
+        verts_ok(dg, it5.seq()),
+        self.digraph == dg, dg.wf(), n == dg.ord(), order == n,
+        sums_fit(dg), no_neg_circuit(dg),
+        self.dist.order == n, self.dist.infinity == isize::MAX, self.dist.wf(),
+        0 <= m < n, i == m, 0 <= jj < n, j == jj,
+        a != isize::MAX, -fw_half() <= a <= fw_half(),
+        witv(dg, jj, m, a as int, m + 1), lbv(dg, jj, m, a as int, m + 1),
+        fw_inv(dg, self.dist.dist@, m, jj, it5.index@),
+    @loop_start 5
+        let ghost kk = it5.index@;
+        let ghost d0 = self.dist.dist@;
+        proof {
+            assert(k == it5.seq()[kk]);
+            lemma_cell_bound(m, kk, n);
+            lemma_cell_bound(jj, kk, n);
+        }
+    @before `if b ==`
+        proof {
+            lemma_read(dg, d0, m, jj, kk, m, kk);
+            lemma_lift_row_all(dg, m, kk, b as int);
+            assert(cell_ok(dg, d0, m, jj, kk, jj, kk));
+            if b != isize::MAX && m != kk { lemma_bound_row(dg, m, kk, b as int); }
+            lemma_cell_step(dg, jj, kk, m, a as int, b as int, ent(d0, n, jj, kk));
+            if b == isize::MAX { lemma_keep(dg, d0, m, jj, kk); }
+        }
+    @before `if s`
+        proof {
+            if s <= d0[jj * n + kk] { lemma_write(dg, d0, m, jj, kk, s); }
+            if s >= d0[jj * n + kk] { lemma_keep(dg, d0, m, jj, kk); }
+        }
+    @loop_end 4
+        proof { if a != isize::MAX { lemma_row_end(dg, self.dist.dist@, m, jj); } }
+    @fn_end
+        proof {
+            assert forall|u: int, v: int| 0 <= u < n && 0 <= v < n implies
+                (#[trigger] self.dist.at(u, v) == isize::MAX <==> !reachable(has_of(dg), set![u], v))
+                && (self.dist.at(u, v) != isize::MAX ==> is_min_walk_weight(has_of(dg), wt_of(dg), set![u], v, self.dist.at(u, v) as int))
+                && (u == v ==> self.dist.at(u, v) == 0) by {
+                lemma_fw_final(dg, self.dist.dist@, u, v);
+            }
+        }
     @*/
+}
+
+/// Composition check (client code, not crate code): `FloydWarshall::new(&digraph).distances()[(u, v)]` is what C08
+/// says, with `new`'s postcondition as the only source of `inv` / `is_fresh`.
+fn harness_apsp(dg: &Dgi, u: usize, v: usize) -> (x: isize)
+    requires
+        dg.wf(), sums_fit(dg), no_neg_circuit(dg), u < dg.ord(), v < dg.ord(),
+    ensures
+        x == isize::MAX <==> !reachable(has_of(dg), set![u as int], v as int),
+        x != isize::MAX ==> is_min_walk_weight(has_of(dg), wt_of(dg), set![u as int], v as int, x as int),
+        u == v ==> x == 0,
+{
+    let mut fw = FloydWarshall::new(dg);
+    let r = fw.distances();
+    *r.index_pair((u, v))
 }
 
 } // verus!
